@@ -8,11 +8,17 @@
   design decision under study:
     weakKey   — WeakKeyDictionary   (the pinned code: key weak, value strong)
     weakValue — WeakValueDictionary (as after `fix:` D7: key strong, value weak)
+  Two more kinds describe the getters that hand the bound method back AS IT IS
+  (`posoargs(end='self')`: binding consumed the whole selection, nothing is left to convert):
+    selfEntry — what the code did before `fix:` D91: the bound method was stored under itself in the
+                WeakValueDictionary (`insts[bm i] = bm i`): the weak value is referenced by its own
+                strong key, so it never dies
+    noStore   — as after D91: such a result is not stored at all
 -/
 import Sigverif.Model.Basic
 namespace SV
 
-inductive DictKind where | weakKey | weakValue deriving DecidableEq, Repr
+inductive DictKind where | weakKey | weakValue | selfEntry | noStore deriving DecidableEq, Repr
 
 inductive COp where
   | get (i : Nat)        -- `inst.method`: caller obtains (a reference to) the wrapper of instance i
@@ -34,6 +40,8 @@ def CState.alive (k : DictKind) (s : CState) : List Nat :=
   match k with
   | .weakKey   => s.heldInst ++ s.heldWrap ++ s.entries      -- the strong value keeps bm i, hence i
   | .weakValue => s.heldInst ++ s.heldWrap ++ s.entries      -- the strong key bm i keeps i while the entry exists
+  | .selfEntry => s.heldInst ++ s.heldWrap ++ s.entries
+  | .noStore => s.heldInst ++ s.heldWrap ++ s.entries        -- (there never are entries)
 
 /-- garbage collection: an entry disappears when its weak side died.
     weakKey: the key `bm i` is referenced by the value `w i`, which the dictionary holds strongly —
@@ -43,13 +51,17 @@ def CState.collect (k : DictKind) (s : CState) : CState :=
   match k with
   | .weakKey => s
   | .weakValue => { s with entries := s.entries.filter (fun i => s.heldWrap.contains i) }
+  | .selfEntry => s          -- the value IS the key: referenced strongly by the dictionary itself
+  | .noStore => { s with entries := s.entries.filter (fun i => s.heldWrap.contains i) }
 
 def addOnce (l : List Nat) (i : Nat) : List Nat := if l.contains i then l else i :: l
 
 def cstep (k : DictKind) (s : CState) : COp → CState
   | .get i => if s.heldInst.contains i
-              then { s with entries := addOnce s.entries i, heldWrap := addOnce s.heldWrap i } else s
-  | .call i => if s.heldInst.contains i then { s with entries := addOnce s.entries i } else s
+              then { s with entries := if k = .noStore then s.entries else addOnce s.entries i,
+                            heldWrap := addOnce s.heldWrap i } else s
+  | .call i => if s.heldInst.contains i
+               then { s with entries := if k = .noStore then s.entries else addOnce s.entries i } else s
   | .dropWrapper i => { s with heldWrap := s.heldWrap.filter (· ≠ i) }
   | .dropInst i => { s with heldInst := s.heldInst.filter (· ≠ i) }
   | .newInst i => { s with heldInst := addOnce s.heldInst i }
